@@ -1195,6 +1195,30 @@ func c16AncestorBatches(r *Run) error {
 			}
 		}
 		all := s.Stores[0].OpLog().Values().Slice()
+		// in two runs of three the request also names the head of ANOTHER database of the
+		// instance: the merge refuses that log (it is not this database's), and what it refuses
+		// must not be announced as replicated
+		var foreign ipfslog.Entry
+		if ri%3 != 0 {
+			other, err := s.Reps[0].Orbit.Create(ctx, "other-"+s.Label, typ, nil)
+			if err != nil {
+				return fmt.Errorf("other database: %w", err)
+			}
+			switch x := other.(type) {
+			case iface.KeyValueStore:
+				_, err = x.Put(ctx, "e0", []byte(fmt.Sprintf("foreign-%d", ri)))
+			case iface.EventLogStore:
+				_, err = x.Add(ctx, []byte(fmt.Sprintf("foreign-%d", ri)))
+			}
+			if err != nil {
+				return err
+			}
+			foreign = other.OpLog().Heads().Slice()[0]
+			if err := other.Close(); err != nil {
+				return err
+			}
+			r.Count("ancestor-batch:with-foreign-head")
+		}
 		keep := 1 + r.Rng.Intn(total-2)
 		if err := c13Reopen(s, 0); err != nil {
 			return err
@@ -1246,7 +1270,11 @@ func c16AncestorBatches(r *Run) error {
 		ends0 := sim.TheHooks.Count("replicator.load_end")
 		if from != nil {
 			sim.TheHooks.DirectLoads++ // a replicator request that does not go through Sync
-			st.LoadMoreFrom(ctx, uint(total), []ipfslog.Entry{from})
+			req := []ipfslog.Entry{from}
+			if foreign != nil {
+				req = append(req, foreign)
+			}
+			st.LoadMoreFrom(ctx, uint(total), req)
 		}
 		if !s.Settle() {
 			r.AddDirect("hang:load-more", "store did not settle after LoadMoreFrom", map[string]interface{}{"run": ri, "state": sim.LastSettleState})
@@ -1272,7 +1300,7 @@ func c16AncestorBatches(r *Run) error {
 			}
 		}
 		r.AddCase(fmt.Sprintf("(CSync %s %s %s)", sim.CoqListN(fresh), sim.CoqList(ann), sim.CoqNat(ends)),
-			map[string]interface{}{"kind": "sync", "sig": "store-replicated", "route": "load-more-from", "type": typ, "total": total, "kept": keep, "fresh": len(fresh), "batches": ends, "events": len(ann)}, len(fresh) > 0)
+			map[string]interface{}{"kind": "sync", "sig": "store-replicated", "route": "load-more-from", "foreign_head_in_request": foreign != nil, "type": typ, "total": total, "kept": keep, "fresh": len(fresh), "batches": ends, "events": len(ann)}, len(fresh) > 0)
 		r.Count(fmt.Sprintf("ancestor-batch:fresh=%v", len(fresh) > 0))
 		s.Close()
 	}
